@@ -83,6 +83,11 @@ func checkC11(ctx *Ctx) *Result {
 			continue
 		}
 		good, detail := serveOK()
+		if good && !(rp.Not(aOPTIONS) || rp.Not(aFoundO) || rp.Not(aFoundACRM)) {
+			// the converse: a path that hands the request on has established
+			// that it is not a preflight
+			good, detail = false, "the wrapped handler is invoked on a path that has not established that the request is not a CORS-preflight request (method other than OPTIONS, no Origin, or no Access-Control-Request-Method)"
+		}
 		r.check(good, "R11.2", desc, "", detail, 1)
 		good, detail = rp.NStatus == 0, "status written on a path that reaches the wrapped handler"
 		for _, w := range rp.Writes {
@@ -182,10 +187,16 @@ func checkC16(ctx *Ctx) *Result {
 	r.rule("R16.2", "debug off: successful preflights name only *, true, *,authorization, request-supplied tokens and the configured max-age", 50)
 	failStatus := map[string]int{}
 	for _, rp := range rt.Paths {
-		if !isPreflightPath(rp) || rp.Is(aDebug) {
+		// a preflight answered by the middleware, with or without a status of its own
+		if !(isPreflightPath(rp) || isPreflightAtoms(rp) && len(rp.Serves) == 0) || rp.Is(aDebug) {
 			continue
 		}
 		desc := rp.Describe()
+		if rp.NStatus == 0 {
+			failStatus["(none written: the implicit 200)"]++
+			r.check(false, "R16.1", desc, "", "a preflight is answered without writing a status: it goes out with the implicit 200, unlike the other failing preflights", 1)
+			continue
+		}
 		if rp.StatusTag != successStatusTag {
 			failStatus[rp.StatusTag]++
 			var ac []string
